@@ -217,6 +217,22 @@ Theorem C02_kc_bar_binary64_error : forall p mu k bars M K, kc_new FOps p mu = O
     (Rabs (FR av - AV) <= Ea)%R /\ (Rabs (FR up - UP) <= D)%R /\ (Rabs (FR lo - LO) <= D)%R.
 Proof. exact kc_bar_float_error. Qed.
 
+(* ... and ChandelierExit: long = RN(mx - RN(ATR * m)), short = RN(mn + RN(ATR * m)) with mx / mn the greatest high / least low of the
+   window (elements of the window, characterised by the binary64 order instance), within K Et + 24 (1+K) u M of mx - ATR_real * m and
+   mn + ATR_real * m, for every finite multiplier |m| <= K and streams of ANY length *)
+From TA Require Import Proofs.Ring Proofs.MinMaxProofs Proofs.FloatOrder.
+Theorem C02_ce_binary64_error : forall p mu c bars M K, ce_new FOps p mu = Ok c -> (p < 35184372088832)%N ->
+  finF mu -> (Rabs (FR mu) <= K)%R -> (1 <= M)%R -> (4 * (1 + K) * M <= bpow radix2 900)%R -> Forall (okbar3 M) bars ->
+  Forall okF (map b_high bars) -> Forall okF (map b_low bars) ->
+  let highs := map b_high bars in let lows := map b_low bars in
+  let Et := atr_ebound p M in let D := (K * Et + 24 * (1 + K) * u * M)%R in
+  let atrs := ema_stream (kreal p) (trb_stream None (map rb bars)) in
+  forall k, (k < length bars)%nat ->
+    exists lg sh mx mn, nth k (ce_outs FOps c bars) [] = [lg; sh] /\ finF lg /\ finF sh /\
+      greatest_in FOps (lastn (N.to_nat p) (firstn (S k) highs)) mx /\ least_in FOps (lastn (N.to_nat p) (firstn (S k) lows)) mn /\
+      (Rabs (FR lg - (FR mx - nth k atrs 0 * FR mu)) <= D)%R /\ (Rabs (FR sh - (FR mn + nth k atrs 0 * FR mu)) <= D)%R.
+Proof. exact ce_float_error. Qed.
+
 From Coq Require Import List Floats.
 From TA Require Import Generic FloatInst XQ Run2 Par.Hom Par.Var Par.Oracle.
 (* the T2 oracle (exact rational run, evaluated by the checks) is the image of the exact real run these
